@@ -328,6 +328,6 @@ pub fn run(r: &mut Runner) {
         groups.extend(crate::hist::unary_groups(&[Op::recip], &[[3.0, 1e-16], [0.7, -2e-17]], [5.0, 0.0]));
         crate::hist::explore(r, "histories: / and recip (operand orders, signs, low words, assign forms)", &groups, 3, &hist_judge, 14u64 << 55);
         // cross-family histories: the same judged calls, preceded by every other public function on the same operands
-        crate::hist::explore_mixed(r, "cross-family histories: any public call, then / and recip (operand orders, signs, low words, assign forms)", &groups[..groups.len().min(2)], 2, &hist_judge, (14u64 << 55) + (1u64 << 53));
+        crate::hist::explore_mixed(r, "cross-family histories: any public call, then / and recip (operand orders, signs, low words, assign forms)", &groups, 2, &hist_judge, (14u64 << 55) + (1u64 << 53));
     }
 }
